@@ -272,9 +272,10 @@ def frCode (s : St) (fi : FrameIn) (redundancy celtToSilk : Bool) (rb : Int) (o 
         else (.ok { ret, nbCompr := nb }, c1 ++ c2 ++ c3 ++ c4)
       else (.ok { ret, nbCompr := nb }, c1 ++ c2 ++ c3)
 
-/-- DTX decision (:2416-2430): `(dtx, nb_no_activity_ms_Q1)`. -/
+/-- DTX decision (:2432-2446): `(dtx, nb_no_activity_ms_Q1)`.  Since fix c3b80a4d the test follows the
+    detector chosen for the call at :1388-1399 (`silk_mode.useDTX`), not the per-sub-frame analysis. -/
 def dtxDecision (s : St) (fi : FrameIn) (o : FrameOr) : Int × Int :=
-  if s.useDtx ≠ 0 ∧ (o.aValid ≠ 0 ∨ fi.isSilence ≠ 0)
+  if s.useDtx ≠ 0 ∧ s.silkUseDtx = 0
   then decideDtxMode o.activity s.nbNoActivity (cdiv (2 * 1000 * fi.frameSize) s.fs)
   else (0, 0)
 
